@@ -100,13 +100,13 @@ func (u *unitCtx) method(ms methodSig, exts []int, typeParam string) {
 	w := u.w
 	ptext, pvars := u.params(ms.nParams, exts, typeParam)
 	ft := FuncTruth{Name: ms.name, ReturnType: nb(ms.ret)}
-	if strings.Contains(ms.ret, "List") {
-		u.used["List"] = true
-	}
 	for _, v := range pvars {
 		ft.Params = append(ft.Params, Param{v.typ, v.name})
 	}
 	if u.sig.kind == "Interface" {
+		if strings.Contains(ms.ret, "List") {
+			u.used["List"] = true
+		}
 		mod := rapid.SampledFrom([]string{"", "public "}).Draw(t, "ifaceMod")
 		w.S(u.indent + mod)
 		ft.DeclLine = w.Line()
@@ -153,6 +153,9 @@ func (u *unitCtx) method(ms methodSig, exts []int, typeParam string) {
 			ret = "R"
 			ft.ReturnType = "R"
 		}
+	}
+	if strings.Contains(ret, "List") {
+		u.used["List"] = true
 	}
 	ft.DeclLine = w.Line()
 	w.S(ret + " ")
